@@ -5,9 +5,9 @@
 (* sizes, declared keys, compute, auth kind and lengths, base fields, rule    *)
 (* costs, prices) and the real numbers (est, act, size, maxfee, fee).         *)
 (* Two groups of clauses, kept apart in diag:                                 *)
-(*  property  estimate-below-actual:<dimension>, maxfee-below-fee - decided   *)
+(*  property  est<act:<dimension>, maxfee<fee (at the same prices) - decided  *)
 (*            on the REAL numbers only;                                       *)
-(*  model     model-*-differs - the numbers WireSize.tla computes from the    *)
+(*  model     model:* - the numbers WireSize.tla computes from the           *)
 (*            shape equal the real ones (this is what transfers the           *)
 (*            exhaustive design run to the code).                             *)
 EXTENDS WireSize, TLC, Json, IOUtils
@@ -28,14 +28,14 @@ TxDiag(t) ==
       mEst == EstimateUnits(t.actions, t.authmax, t.authmaxc, t.rules, t.sponsorch)
       mAct == ActualUnits(base, t.actions, t.authlen, t.authc, t.rules, t.balchunks)
   IN \* ---- the property, on the real numbers
-     {"estimate-below-actual:" \o DimName(d) : d \in {d \in Dims : t.est[d] < t.act[d]}} \cup
-     (IF t.maxfee >= 0 /\ t.fee >= 0 /\ t.maxfee < t.fee THEN {"maxfee-below-fee-at-the-same-prices"} ELSE {}) \cup
-     (IF t.maxfee >= 0 /\ t.maxfee # Dot(t.prices, t.est) THEN {"model-differs:maxfee-is-not-prices-times-estimate"} ELSE {}) \cup
+     {"est<act:" \o DimName(d) : d \in {d \in Dims : t.est[d] < t.act[d]}} \cup
+     (IF t.maxfee >= 0 /\ t.fee >= 0 /\ t.maxfee < t.fee THEN {"maxfee<fee"} ELSE {}) \cup
+     (IF t.maxfee >= 0 /\ t.maxfee # Dot(t.prices, t.est) THEN {"model:maxfee"} ELSE {}) \cup
      \* ---- the model equals the code on this shape
-     (IF t.act[1] # t.size THEN {"model-differs:bandwidth-unit-is-not-the-encoded-size"} ELSE {}) \cup
-     {"model-differs:actual-" \o DimName(d) : d \in {d \in Dims : mAct[d] # t.act[d]}} \cup
-     {"model-differs:estimate-" \o DimName(d) : d \in {d \in Dims : mEst[d] # t.est[d]}} \cup
-     (IF Len(t.actions) > t.maxactions THEN {"harness:more-actions-than-the-rules-admit"} ELSE {})
+     (IF t.act[1] # t.size THEN {"model:size"} ELSE {}) \cup
+     {"model:act-" \o DimName(d) : d \in {d \in Dims : mAct[d] # t.act[d]}} \cup
+     {"model:est-" \o DimName(d) : d \in {d \in Dims : mEst[d] # t.est[d]}} \cup
+     (IF Len(t.actions) > t.maxactions THEN {"harness:actions>limit"} ELSE {})
 
 TTx == Ev("tx") /\ diag' = TxDiag(T)
 
